@@ -136,6 +136,27 @@ def conc_suite(profile, n_quick, n_thorough, sched_quick, sched_thorough, focus,
     return run
 
 
+def spin_suite(ctx, search=False):
+    """eventpp::SpinLock itself: real threads (the baton scheduler cannot interpose on its std::atomic_flag)"""
+    ok, exe, log = vlib.build_harness(src="spin_stress.cpp", out_name="spin_stress", opt="-O2", san=False, extra=["-pthread"])
+    ctx.oblige("harness spin_stress builds from /repo/include", ok, log[-1500:])
+    if not ok:
+        return
+    ctx.rule = (ctx.rule + " | " if ctx.rule else "") + (
+        "eventpp::SpinLock under real contention: 4 / 8 (thorough: up to 16) threads x 10^5 critical sections with an occupancy counter and a plain counter, "
+        "and producers / consumer on an EventQueue with the SpinLock policy (conservation)")
+    for nt in ((4, 8) if ctx.quick() else (2, 4, 8, 16)):
+        for rep in range(2 if ctx.quick() else 6):
+            rc, out, err = vlib.sh([exe, str(nt), "100000"], timeout=300)
+            ctx.cov["evaluations"] += 1
+            if rc != 0:
+                ctx.fail("violation", "SpinLock does not exclude / events lost under contention: " + " ; ".join(out.strip().splitlines()[-3:]) + err[-300:],
+                         "# replay: build/spin_stress %d 100000\nthreads %d rounds 100000\n" % (nt, nt), "spin_stress")
+                ctx.cov["failures"] += 1
+                return
+            ctx.cov["traces_validated"] += 1
+
+
 register(
     "C07",
     lean_modules=["EventppVerif.Properties.C07"],
@@ -150,8 +171,9 @@ register(
 
 register(
     "C06",
-    lean_modules=["EventppVerif.Properties.C06"],
-    suites=[conc_suite("conserve", 80, 800, 10, 60, "C06",
+    lean_modules=["EventppVerif.Properties.C06", "EventppVerif.Properties.C03spin"],
+    fragments=["SpinFrag"],
+    suites=[spin_suite, conc_suite("conserve", 80, 800, 10, 60, "C06",
                        rule="random programs of 2-4 threads mixing enqueue with process / processOne / processIf (even / odd ids declined) / processUntil (stop at the first even / odd id) / "
                             "takeEvent / peekEvent / clearEvents / emptyQueue, "
                             "each run under seeded random schedules of the baton scheduler, plus a directed family of the smallest producer/consumer programs with many schedules "
@@ -345,9 +367,9 @@ def hslot_suite(ctx, search=False):
 
 register(
     "C03",
-    lean_modules=["EventppVerif.Properties.C03", "EventppVerif.Properties.C02bridge", "EventppVerif.Properties.C03slot"],
-    fragments=["ClFrag"],
-    suites=[concl_suite, hslot_suite],
+    lean_modules=["EventppVerif.Properties.C03", "EventppVerif.Properties.C02bridge", "EventppVerif.Properties.C03slot", "EventppVerif.Properties.C03spin"],
+    fragments=["ClFrag", "SpinFrag"],
+    suites=[concl_suite, hslot_suite, spin_suite],
     level_text="Lean theorems on the concurrent micro-step model of CallbackList over the pointer model (every schedule, any number of threads): well-formedness of the list after every micro-step, "
                "linearizability by fixed linearization points (each adding / removing / querying call takes effect in one atomic critical section whose result is the Spec result on the abstract list), "
                "every traversal step calls a live callback and terminates. Partial: sequential consistency is assumed (the library's intentional unlocked reads are data races by the letter of the "
